@@ -129,7 +129,7 @@ def stepJ (j : J) : Ev → Except String J
     | some i =>
       if i.mode != 1 then .error "offline-report-for-transient" else
       if uids.any (fun u => !(j.presOk.contains (m, u)) || !(j.world.routes u).isEmpty) then .error "offline-wrong-recipient" else
-      if uids.any (fun u => j.offl.count (m, u) + 1 > j.presOk.count (m, u)) then .error "offline-duplicate" else
+      if uids.any (fun u => j.offl.count (m, u) + uids.count u > j.presOk.count (m, u)) then .error "offline-duplicate" else
       .ok { j with offl := uids.map (fun u => (m, u)) ++ j.offl }
   | .stopCall => .ok j
   | .stopRet ok =>
